@@ -151,6 +151,7 @@ func (ex *Exec) stepCall(st *State, b *ssa.BasicBlock, i int, in *ssa.Call) bool
 		ex.fail("dynamic call of %s (%s) in %s has no functype contract", cc.Value.Name(), cc.Value.Type(), fr.fn.String())
 	}
 	ex.usedRelies[c.Key] = true
+	ex.noteAssumed("rely condition on function values: " + strings.TrimPrefix(c.Key, "functype:"))
 	ex.safe(st, in, "nilfunc", mkNot(mkEq(fv.T, tZero)), "call of nil function value")
 	sig := cc.Value.Type().Underlying().(*types.Signature)
 	res := ex.applyContract(st, c, append([]*Val{fv}, args...), sig, in, "funcvalue:"+shortFn(strings.TrimPrefix(c.Key, "functype:")))
@@ -225,6 +226,7 @@ func (ex *Exec) contractParamNames(c *Contract, sig *types.Signature, nargs int,
 func (ex *Exec) applyContract(st *State, c *Contract, args []*Val, sig *types.Signature, in ssa.Instruction, calleeShort string) *Val {
 	if c.Kind == "extern" || c.Kind == "trusted" {
 		ex.usedExterns[c.Key] = true
+		ex.noteAssumed("assumed contract (extern/trusted): " + c.Key)
 	}
 	if c.Kind == "func" {
 		if ex.callsOf[ex.topKey] == nil {
